@@ -113,6 +113,7 @@ type callSite struct {
 	key   string
 	names []string
 	text  string // source text of the call expression
+	ext   string // source text of the helpers called in its argument list
 }
 
 // expandedSites: the call sites of fn in source order, with the call sites of every contract-less repository function
@@ -141,7 +142,7 @@ func (fr *Frame) expandedSites(fn *ssa.Function, path string, stack []*ssa.Funct
 	var out []callSite
 	for _, ins := range instrs {
 		common := ins.(ssa.CallInstruction).Common()
-		out = append(out, callSite{siteKey(path, ins), fr.callNames(common), fr.c.W.callText(fn, ins.Pos())})
+		out = append(out, callSite{siteKey(path, ins), fr.callNames(common), fr.c.W.callText(fn, ins.Pos()), fr.c.W.callTextExt(fn, ins.Pos())})
 		if _, isGo := ins.(*ssa.Go); isGo {
 			continue
 		}
@@ -168,8 +169,22 @@ func (fr *Frame) matchCallAnns(instr ssa.Instruction, common *ssa.CallCommon) []
 		for _, a := range top.contract.Calls {
 			m := map[string]int{}
 			n := 0
+			// a ~text selector looks at the call's own text first; only when no site of that name has the token itself are
+			// the helpers called in the argument lists considered (an attribute literal moved into a constructor)
+			direct := false
+			if a.Text != "" {
+				for _, s := range sites {
+					if strings.Contains(s.text, a.Text) {
+						for _, nm := range s.names {
+							if nm == a.Callee {
+								direct = true
+							}
+						}
+					}
+				}
+			}
 			for _, s := range sites {
-				if a.Text != "" && !strings.Contains(s.text, a.Text) {
+				if a.Text != "" && !strings.Contains(s.text, a.Text) && (direct || !strings.Contains(s.ext, a.Text)) {
 					continue
 				}
 				for _, nm := range s.names {
